@@ -23,6 +23,7 @@ type Options struct {
 	LateFailN   int   // the n-th Write reaches the peer completely and is then reported as failed (a timeout that fires after the bytes went out)
 	FailDial    bool  // refuse to dial
 	ReadDelayUS int   // sleep before each Read (schedule diversity only)
+	AfterDial   func() // called when the TCP connection exists, before the dial function returns it
 }
 
 // Conn is the wrapper.
@@ -137,6 +138,9 @@ func Register() {
 			mu.Lock()
 			dialled[addr] = append(dialled[addr], c)
 			mu.Unlock()
+			if opt.AfterDial != nil {
+				opt.AfterDial()
+			}
 			return c, nil
 		})
 	})
